@@ -1316,7 +1316,17 @@ class RewriteAtQuery(NodeTransformer):
                         annotation=self.replacement_node.value,
                     )
 
-                if idx is not None and len(node.args.defaults) > idx:
+                if idx is not None:
+                    # `defaults` is right-aligned with `args`; `_idx` does not count `self`/`cls`
+                    idx += (
+                        int(
+                            len(node.args.args) > 0
+                            and node.args.args[0].arg in frozenset(("self", "cls"))
+                        )
+                        + len(node.args.defaults)
+                        - len(node.args.args)
+                    )
+                if idx is not None and 0 <= idx < len(node.args.defaults):
                     new_default = get_value(self.replacement_node)
                     if new_default not in none_types:
                         node.args.defaults[idx] = new_default
